@@ -51,6 +51,35 @@ pub fn run_history(ops: &[Op], inspect_all: bool) -> Result<Model, (usize, Strin
     }
 }
 
+/// the same history with a caller that never fetches the error message between calls: return
+/// values and the pool must be what the draining caller sees
+pub fn run_history_no_drain(ops: &[Op]) -> Result<(), (usize, String)> {
+    let mut model = Model::new();
+    let mut real = Real::new();
+    real.drain = false;
+    let mut failure = None;
+    unsafe {
+        let _ = take_error();
+        for (i, op) in ops.iter().enumerate() {
+            let want = model_step(&mut model, op);
+            if let Err(e) = real.step(op, &want) {
+                failure = Some((i, format!("with an unfetched error message pending: {e}")));
+                break;
+            }
+            if let Err(e) = real.compare(&model) {
+                failure = Some((i, format!("with an unfetched error message pending, after {op:?}: {e}")));
+                break;
+            }
+        }
+        real.cleanup();
+        let _ = take_error();
+    }
+    match failure {
+        Some(f) => Err(f),
+        None => Ok(()),
+    }
+}
+
 pub fn op_class(op: &Op) -> String {
     match op {
         Op::Make(_, c) => {
@@ -379,7 +408,7 @@ pub fn machine_histories(tier: Tier) -> Vec<(String, Vec<Op>)> {
 pub fn run(tier: Tier) -> i32 {
     let mut run = Run::new("C17", tier, "model_checking");
     let depth = tier.pick(4usize, 5);
-    run.rule = format!("model: pool of {SLOTS} value handles + 1 filter handle; ~35 constructors (every kind; valid, invalid and non-UTF-8 arguments; from Zinc / JSON text; from other handles: utc/tz datetime, grid from rows with/without meta) and every list/dict/grid/datetime/filter operation over slot indices, list index {{0,1,7}}, keys {{a,b,invalid UTF-8}}, 5 filter texts. BFS over canonical model states to depth {depth}; every transition = one real extern \"C\" call on a real pool rebuilt by replaying the state's shortest history; after every step: return value = model (documented sentinel on failure), error message retrievable exactly once iff failure, whole pool deep-equal to the model (failure leaves all handles unchanged), borrowed entry pointers dereferenced immediately; after the last step every live handle is inspected with all 18 predicates and 35 getters incl. to_zinc_string / to_json_string against the Rust encoders. Symmetric states merged by constructing into the first free slot; plus three focused machines searched over canonical states — a list (three values pushed, set, removed, read at every index 0..3, the list into itself; depth 5/6), a dict (camelCase, empty, non-ASCII, blank-containing, 300-byte and invalid keys, overwriting, the dict into itself; depth 3/4), a four-row sparse grid (rows into a fresh handle, a dict handle and the grid itself, two filters, first/all matches into every handle; depth 3/4) — and 51 exotic values (interior NUL in every string position, 210 kB and non-ASCII strings, extreme numbers, dates, times, coordinates, multi-alias units) alone, in a list and in a dict, every live handle inspected with all getters after every step; plus one sweep of every string argument of every function with bytes that are not UTF-8 (sentinel, message, arguments unchanged)");
+    run.rule = format!("model: pool of {SLOTS} value handles + 1 filter handle; ~35 constructors (every kind; valid, invalid and non-UTF-8 arguments; from Zinc / JSON text; from other handles: utc/tz datetime, grid from rows with/without meta) and every list/dict/grid/datetime/filter operation over slot indices, list index {{0,1,7}}, keys {{a,b,invalid UTF-8}}, 5 filter texts. BFS over canonical model states to depth {depth}; every transition = one real extern \"C\" call on a real pool rebuilt by replaying the state's shortest history; after every step: return value = model (documented sentinel on failure), error message retrievable exactly once iff failure, whole pool deep-equal to the model (failure leaves all handles unchanged), borrowed entry pointers dereferenced immediately; after the last step every live handle is inspected with all 18 predicates and 35 getters incl. to_zinc_string / to_json_string against the Rust encoders. Symmetric states merged by constructing into the first free slot; plus three focused machines searched over canonical states — a list (three values pushed, set, removed, read at every index 0..3, the list into itself; depth 5/6), a dict (camelCase, empty, non-ASCII, blank-containing, 300-byte and invalid keys, overwriting, the dict into itself; depth 3/4), a four-row sparse grid (rows into a fresh handle, a dict handle and the grid itself, two filters, first/all matches into every handle; depth 3/4) — and 51 exotic values (interior NUL in every string position, 210 kB and non-ASCII strings, extreme numbers, dates, times, coordinates, multi-alias units) alone, in a list and in a dict, every live handle inspected with all getters after every step; all machine histories and every history of <= 3 calls of the general alphabet once more with a caller that never fetches the error message between calls (same return values, same pool); borrowed entry pointers re-read after every read-only call on their container, every string getter called twice with both results destroyed; plus one sweep of every string argument of every function with bytes that are not UTF-8 (sentinel, message, arguments unchanged)");
     run.assume("the model is written from the header documentation and the Rust API (Appendix C); equal model pools have equal futures (the API has no other state than the handles and the thread-local last error)");
     crate::engine::quiet_panics();
     let (search, l) = bfs(depth, tier.pick(1_500_000, 6_000_000), &visit);
@@ -402,6 +431,27 @@ pub fn run(tier: Tier) -> i32 {
             Ok(Ok(_)) => local.outcome("ok"),
             Ok(Err((k, e))) => local.fail(&format!("capi:{}:{fam}", op_class(&ops[k])), json!({"machine": name, "ops": ops_json(ops)}), e),
             Err(p) => local.fail(&format!("panic:{}:{fam}", op_class(ops.last().unwrap())), json!({"machine": name, "ops": ops_json(ops)}), p),
+        }
+        match guarded(|| run_history_no_drain(ops)) {
+            Ok(Ok(())) => {}
+            Ok(Err((k, e))) => local.fail(&format!("capi:{}:{fam}:pending-error", op_class(&ops[k])), json!({"machine": name, "ops": ops_json(ops), "no_drain": true}), e),
+            Err(p) => local.fail(&format!("panic:{}:{fam}:pending-error", op_class(ops.last().unwrap())), json!({"machine": name, "ops": ops_json(ops), "no_drain": true}), p),
+        }
+    });
+    run.absorb(l);
+    // every history of <= 3 calls of the general alphabet, once more without fetching the error
+    // message between calls
+    let (short, _) = transition_paths(3, 3_000_000);
+    run.note("no_drain_paths", json!(short.len()));
+    let l = par_for(short.len(), |i, local| {
+        local.eval();
+        local.transitions += 1;
+        local.count("no-drain-histories");
+        let ops = path_to_ops(&short[i]).expect("path");
+        match guarded(|| run_history_no_drain(&ops)) {
+            Ok(Ok(())) => {}
+            Ok(Err((k, e))) => local.fail(&format!("capi:{}:pending-error", op_class(&ops[k])), json!({"path": short[i], "ops": ops_json(&ops), "no_drain": true}), e),
+            Err(p) => local.fail(&format!("panic:{}:pending-error", op_class(ops.last().unwrap())), json!({"path": short[i], "ops": ops_json(&ops), "no_drain": true}), p),
         }
     });
     run.absorb(l);
@@ -445,10 +495,29 @@ pub fn run(tier: Tier) -> i32 {
 }
 
 pub fn replay(case: &J) -> Verdict {
+    if case["no_drain"] == true && case.get("path").is_some() {
+        let path: Vec<usize> = case["path"].as_array().map(|a| a.iter().map(|x| x.as_u64().unwrap() as usize).collect()).unwrap_or_default();
+        let ops = match path_to_ops(&path) {
+            Some(o) => o,
+            None => return Err(("replay-path-invalid".into(), "path".into())),
+        };
+        return match guarded(|| run_history_no_drain(&ops)) {
+            Ok(Ok(())) => Ok(()),
+            Ok(Err((k, e))) => Err((format!("capi:{}:pending-error", op_class(&ops[k])), e)),
+            Err(p) => Err((format!("panic:{}:pending-error", op_class(ops.last().unwrap())), p)),
+        };
+    }
     if let Some(name) = case["machine"].as_str() {
         for tier in [Tier::Quick, Tier::Thorough] {
             if let Some((_, ops)) = machine_histories(tier).into_iter().find(|(n, ops)| n == name && ops_json(ops) == case["ops"]) {
                 let fam = name.split(':').next().unwrap_or("").to_string();
+                if case["no_drain"] == true {
+                    return match guarded(|| run_history_no_drain(&ops)) {
+                        Ok(Ok(())) => Ok(()),
+                        Ok(Err((k, e))) => Err((format!("capi:{}:{fam}:pending-error", op_class(&ops[k])), e)),
+                        Err(p) => Err((format!("panic:{}:{fam}:pending-error", op_class(ops.last().unwrap())), p)),
+                    };
+                }
                 return match guarded(|| run_history(&ops, true)) {
                     Ok(Ok(_)) => Ok(()),
                     Ok(Err((k, e))) => Err((format!("capi:{}:{fam}", op_class(&ops[k])), e)),
